@@ -1,9 +1,14 @@
 package gprops
 
 import (
+	"encoding/hex"
 	"fmt"
+	"io"
+	"log"
 	"os"
+	"os/exec"
 	"path/filepath"
+	"strconv"
 	"strings"
 	"time"
 
@@ -15,7 +20,27 @@ import (
 	"verif/vfs"
 )
 
-func init() { Registry["C12"] = C12 }
+func init() { Registry["C12"] = C12; Registry["C12child"] = c12Child }
+
+// c12Child performs the sent-marking operations in a process of its own: DirHandler.SetSent ends the
+// process (log.Fatalf) when the rename fails, which is an acceptable way of touching nothing.
+// vgovs C12child <mailbox hex> <mid hex> <mode>: bit 0 = rejected, bit 1 = GetOutbound first.
+func c12Child(args []string) {
+	if len(args) < 3 {
+		os.Exit(3)
+	}
+	mbox, _ := hex.DecodeString(args[0])
+	mid, _ := hex.DecodeString(args[1])
+	mode, _ := strconv.Atoi(args[2])
+	log.SetOutput(io.Discard)
+	h := mailbox.NewDirHandler(string(mbox), false)
+	h.Prepare()
+	if mode&2 != 0 {
+		h.GetOutbound()
+	}
+	h.SetSent(string(mid), mode&1 != 0)
+	os.Exit(0)
+}
 
 type c12Case struct {
 	MID    string `json:"mid"`
@@ -45,6 +70,28 @@ func c12MIDs() []string {
 	rec("", 0)
 	out = append(out, "", strings.Repeat("a", 300), "ü", "/etc/x", "~", "~/x", "a/../../../../../../x", "..\\..\\pwn", "....//....//x", "%2e%2e%2fx", "CON", "a\nb", "a\rb", " ", "../../../../../../../../tmp/c12-absolute-escape")
 	return out
+}
+
+// c12TokenCount is the length of mid in tokens if it is one of the enumerated token strings (99: a special one).
+func c12TokenCount(mid string) int {
+	n := 0
+	for len(mid) > 0 {
+		switch {
+		case strings.HasPrefix(mid, "../"):
+			mid = mid[3:]
+		case strings.HasPrefix(mid, ".."):
+			mid = mid[2:]
+		case strings.ContainsRune("a/.\\\x00", rune(mid[0])):
+			mid = mid[1:]
+		default:
+			return 99
+		}
+		n++
+		if n > 5 {
+			return 99
+		}
+	}
+	return n
 }
 
 var c12Headers = []string{
@@ -87,6 +134,37 @@ func c12Run(c c12Case) (class, detail string, hostile bool) {
 		msg.Header.Set(kv[0], kv[1])
 	}
 	hostile = strings.ContainsAny(c.MID, "/\\\x00") || strings.Contains(c.MID, "..") || c.Header != ""
+	if strings.HasPrefix(c.Op, "SetSent") {
+		// mode: SetSent[-rejected][+relay]: with +relay the outbox holds a message file whose name is not
+		// its MID (the handler offers every *.b2f) and whose Mid header is the hostile identifier, and
+		// the handler has listed it before it is marked sent
+		mode := 0
+		if strings.Contains(c.Op, "rejected") {
+			mode |= 1
+		}
+		if strings.Contains(c.Op, "relay") {
+			mode |= 2
+			if data, err := msg.Bytes(); err == nil {
+				os.WriteFile(filepath.Join(sb.mbox, "out", "relay-0001.b2f"), data, 0o644)
+			}
+		}
+		before = sandbox.Snapshot(sb.root, sb.mbox)
+		cmd := exec.Command(os.Args[0], "C12child", hex.EncodeToString([]byte(sb.mbox)), hex.EncodeToString([]byte(c.MID)), strconv.Itoa(mode))
+		cmd.Env = append(os.Environ(), "VERIF_ROOT="+core.Root)
+		cmd.Run() // the exit status is of no interest: dying without touching anything is fine
+		if d := sandbox.Diff(before, sandbox.Snapshot(sb.root, sb.mbox)); d != "" {
+			d = strings.ReplaceAll(d, sb.root, "<SANDBOX>")
+			kind := "created"
+			if strings.Contains(d, "modified") {
+				kind = "modified"
+			}
+			if strings.Contains(d, "deleted") {
+				kind = "deleted"
+			}
+			return "escape|" + c.Op + "|" + kind + "|via mid", d, hostile
+		}
+		return "", "", hostile
+	}
 	vfs.Begin(-1, 0, true)
 	pmsg, _ := core.Catch(func() {
 		for _, op := range c.Seq {
@@ -197,6 +275,15 @@ func C12(args []string) {
 			cases = append(cases, c12Case{MID: mid, Header: hd, Op: "ProcessInbound+Answer"})
 		}
 	}
+	// marking sent (in a child process each): identifiers of up to 4 tokens and the special ones
+	for _, mid := range c12MIDs() {
+		if n := c12TokenCount(mid); n > 4 && n < 99 {
+			continue
+		}
+		for _, op := range []string{"SetSent", "SetSent-rejected", "SetSent+relay", "SetSent-rejected+relay"} {
+			cases = append(cases, c12Case{MID: mid, Op: op})
+		}
+	}
 	// operation sequences: what one call records another may use (two identifiers, two steps)
 	seqOps := []string{"Prepare", "Answer:H", "Answer:V", "Answers:HV", "Process:H", "Process:V", "Deferred:H", "GetOutbound"}
 	var seqs [][]string
@@ -244,6 +331,6 @@ func C12(args []string) {
 		"mids":                          len(c12MIDs()), "header_values": len(c12Headers), "session_cases": add["session_cases"],
 	}, []string{
 		"ground truth is a recursive snapshot (path, size, mtime, inode, mode, content hash) of the sandbox outside the mailbox before and after each call; in addition every mutating primitive logged by the file-system seam must lie under the mailbox root",
-		"SetSent is only exercised with MIDs that came out of GetOutbound (a remote station cannot choose those); AddOut with a hostile MID is a local action outside the property",
+		"SetSent is exercised with every identifier of up to 4 tokens (each in a process of its own: the handler ends the process when the rename fails), also after GetOutbound has listed an outbox file whose Mid header is that identifier; AddOut with a hostile MID is a local action outside the property",
 	})
 }
